@@ -1061,3 +1061,47 @@ TWINS["C04"] = [
     TW("cache-early-store",
        (LR, "                action_list = list(mdp.actions(s))\n                self.rng.shuffle(action_list)\n", "                action_list = list(mdp.actions(s))\n                self.rng.shuffle(action_list)\n                self.res.action_orders[s] = action_list\n")),
 ]
+
+# ----------------------------------------------------------------------------------- C03
+LAO = A + "laostar.py"
+MUTANTS["C03"] = [
+    M("penalty-replaced-by-min", ["BEL-4"],
+      (LAO, "(q + np.log(am)).argmax(axis=1)[:, None]", "np.where(am > 0, q, q.min(axis=1, keepdims=True)).argmax(axis=1)[:, None]")),
+    M("penalty-dropped", ["BEL-4"],
+      (LAO, "(q + np.log(am)).argmax(axis=1)[:, None]", "q.argmax(axis=1)[:, None]")),
+    M("boundary-no-discount", ["BND-3"],
+      (LAO, "rf[si, ai, -1] += prob*(reward + self.mdp.discount_rate*self.states_to_nodes[ns].value)", "rf[si, ai, -1] += prob*(reward + self.states_to_nodes[ns].value)")),
+    M("boundary-heuristic-instead-of-value", ["BND-3"],
+      (LAO, "rf[si, ai, -1] += prob*(reward + self.mdp.discount_rate*self.states_to_nodes[ns].value)", "rf[si, ai, -1] += prob*(reward + self.mdp.discount_rate*self.heuristic(ns))")),
+    M("boundary-branches-swapped", ["BND-3"],
+      (LAO, "                        if self.mdp.is_absorbing(ns):\n                            rf[si, ai, -1] += prob*reward", "                        if not self.mdp.is_absorbing(ns):\n                            rf[si, ai, -1] += prob*reward")),
+    M("boundary-renormalisation-dropped", ["BND-4"],
+      (LAO, "                if tf[si, ai, -1] > 0:\n                    rf[si, ai, -1] /= tf[si, ai, -1]\n", "")),
+    M("absorbing-nodes-expanded", ["BND-1"],
+      (LAO, "            if self.mdp.is_absorbing(s):\n                tf[si, :, -1] = 1\n                am[si, :] = 1\n                continue\n", "")),
+    M("store-transposed", ["TEN-4"],
+      (LAO, "                        tf[si, ai, nsi] = prob\n", "                        tf[nsi, ai, si] = prob\n")),
+    M("reward-args", ["TEN-4", "ARG"],
+      (LAO, "                    reward = self.mdp.reward(s, a, ns)\n", "                    reward = self.mdp.reward(ns, a, s)\n")),
+    M("eval-no-discount", ["BEL-2"],
+      (LAO, "v = np.linalg.solve(np.eye(tf.shape[0]) - self.mdp.discount_rate * mp, s_rf)", "v = np.linalg.solve(np.eye(tf.shape[0]) - mp, s_rf)")),
+    M("lookahead-no-discount", ["BEL-2"],
+      (LAO, "q = rf[:, :, :] + self.mdp.discount_rate * v[None, None, :]", "q = rf[:, :, :] + v[None, None, :]")),
+    M("optimal-action-from-global-list", ["BEL-4"],
+      (LAO, "optimal_action = max(node.action_order, key=lambda a: action_vals[a])", "optimal_action = max(dp_action_order, key=lambda a: action_vals[a])")),
+    M("columns-read-back-sorted", ["LAY-1"],
+      (LAO, "action_vals = {a: v for a, v in zip(dp_action_order, q[si, :])}", "action_vals = {a: v for a, v in zip(sorted(dp_action_order, key=str), q[si, :])}")),
+    M("converged-constant", ["BEL-5"],
+      (LAO, "            converged=solution_graph.is_solved(),", "            converged=True,")),
+    M("initial-value-unweighted", ["BEL-6"],
+      (LAO, "            v += self.states_to_nodes[s].value*p", "            v += self.states_to_nodes[s].value")),
+    M("policy-closure-falls-through", ["POL-1"],
+      (LAO, "                max_val = max(val, max_val)\n            return DictDistribution.uniform(max_actions)", "                max_val = max(val, max_val)\n            if max_actions:\n                return DictDistribution.uniform(max_actions)")),
+    M("einsum-policy-transposed", ["TEN-1"],
+      (LAO, 'mp = np.einsum("sa,san->sn", pi, tf) # policy markov chain', 'mp = np.einsum("as,san->sn", pi, tf) # policy markov chain')),
+]
+TWINS["C03"] = [
+    TW("boundary-factor-order",
+       (LAO, "rf[si, ai, -1] += prob*(reward + self.mdp.discount_rate*self.states_to_nodes[ns].value)", "rf[si, ai, -1] += (self.states_to_nodes[ns].value*self.mdp.discount_rate + reward)*prob")),
+    TW("penalty-commuted", (LAO, "(q + np.log(am)).argmax(axis=1)[:, None]", "(np.log(am) + q).argmax(axis=1)[:, None]")),
+]
